@@ -71,11 +71,6 @@ structure Image where
   clipRects : Nat := 0             -- number of rectangles of clip_region
   stops : Cell := {}               -- gradient.stops (the block starts one element earlier)
   indexed : Option Nat := none     -- bits.indexed (a client pointer; not owned)
-  /-- `bits.indexed` and `gradient.stops` are the same word of the union: after
-      `pixman_image_set_indexed` on a gradient the stops field holds the client's pointer
-      (`some (some p)`) or NULL (`some none`) instead of the library's block -/
-  stopsForeign : Option (Option Nat) := none
-  badFrees : Nat := 0              -- `free ()` calls on pointers the library never allocated
   destroyFunc : Bool := false
   destroyData : Nat := 0
 
@@ -158,18 +153,8 @@ def Image.isGradient (im : Image) : Bool :=
   decide (im.kind = .linear ∨ im.kind = .radial ∨ im.kind = .conical)
 
 /-- gradients: `free (stops - 1)` -/
-def Image.stopsAfterFini (im : Image) : Cell :=
-  match im.stopsForeign with
-  | none => im.stops.free          -- the field still holds the library's block
-  | some _ => im.stops             -- NULL (nothing freed) or the client's pointer: the block is lost
-
-def Image.badFreesAfterFini (im : Image) : Nat :=
-  match im.stopsForeign with
-  | some (some _) => im.badFrees + 1     -- free (indexed - 1)
-  | _ => im.badFrees
-
 def Image.finiStops (im : Image) : Image :=
-  if im.isGradient then { im with stops := im.stopsAfterFini, badFrees := im.badFreesAfterFini } else im
+  if im.isGradient then { im with stops := im.stops.free } else im
 
 /-- bits: `free (free_me)` -/
 def Image.finiBits (im : Image) : Image :=
@@ -213,8 +198,7 @@ def setDestroy (h : Heap) (i : Nat) (func : Bool) (data : Nat) : Heap :=
 /-- `pixman_image_set_indexed (image, indexed)`: returns for images that are not bits images (since
     d80eb11; before, the store went through a `bits_image_t` cast: on a gradient it overwrote
     `gradient.stops` — same offset — so the stops array was lost and `_pixman_image_fini` freed
-    `indexed - 1`; the fields `stopsForeign` / `badFrees` remain in the model to state that they
-    stay at their initial values). -/
+    `indexed - 1`). -/
 def setIndexed (h : Heap) (i : Nat) (p : Option Nat) : Heap :=
   (touch h i).modify i fun im =>
     -- if (image->type != BITS) return;
@@ -438,6 +422,12 @@ inductive Op where
   | cacheRemove (key : Nat)
 deriving Repr
 
+/-- the calls that allocate, issued with "the k-th allocation inside this call fails" (`k = 0`: none) -/
+inductive Call where
+  | plain (op : Op)
+  | failing (k : Nat) (op : Op)
+deriving Repr
+
 inductive Res where
   | created (id : Nat)
   | null
@@ -460,7 +450,9 @@ def Heap.borrowed (h : Heap) (a : Nat) : Bool :=
     time; a glyph key is inserted only while absent; separable-convolution parameters are
     well-formed (the library reads `params[0..3]` unconditionally). -/
 def Op.ok (h : Heap) : Op → Bool
-  | .createBits .. | .createSolid | .createGradient .. => true
+  | .createBits .. | .createSolid => true
+  -- there is no constructor of a "gradient" of another image type
+  | .createGradient k _ => decide (k = .linear ∨ k = .radial ∨ k = .conical)
   | .ref i | .unref i | .setTransform i _ | .setClip32 i _ | .setClip16 i _ | .setDestroy i _ _
   | .setIndexed i _ => h.holds i
   | .setFilter i f p =>
@@ -504,11 +496,46 @@ def apply (h : Heap) : Op → Heap × Res
   | .cacheInsert key i => let (h, b) := cacheInsert h key i; (h, .bool b)
   | .cacheRemove key => (cacheRemove h key, .unit)
 
-/-- one step of a client that respects ownership: calls it may not make are not made -/
-def step (h : Heap) (op : Op) : Heap × Res :=
-  if op.ok h then apply h op else (h, .refused)
+/-- `clip_region` after `pixman_break ()`: the old data freed, the static broken data installed -/
+def breakClip (h : Heap) (i : Nat) : Heap :=
+  (touch h i).modify i fun im => { im with clipData := im.clipData.free.clear, clipSize := 0, clipRects := 0 }
 
-def run (h : Heap) : List Op → Heap × List Res
+/-- number of allocations the call makes (in program order) -/
+def allocsOf (h : Heap) : Op → Nat
+  | .createBits w ht own => if own ∧ w ≠ 0 ∧ ht ≠ 0 then 2 else 1      -- struct, pixels
+  | .createSolid => 1
+  | .createGradient _ n => if n ≤ 0 then 1 else 2                      -- struct, stops
+  | .setTransform i t => ((setTransform h i t).1.img i).transform.allocated - (h.img i).transform.allocated
+  | .setFilter i f p => ((setFilter h i f p).1.img i).filterParams.allocated - (h.img i).filterParams.allocated
+  | .setClip32 i n => ((setClip32 h i n).1.img i).clipData.allocated - (h.img i).clipData.allocated
+  | .setClip16 _ (some n) => if n ≤ 1 then 0 else if 16 < n then 2 else 1   -- temporary boxes, region data
+  | .cacheInsert key i =>                                                -- glyph_t, struct, pixels
+    if (cacheInsert h key i).2 then (if (h.img i).width ≠ 0 ∧ (h.img i).height ≠ 0 then 3 else 2) else 0
+  | _ => 0
+
+/-- the call when its `k`-th allocation returns NULL (`1 ≤ k ≤ allocsOf`): creations and the glyph
+    insert undo what they did and return NULL; `set_transform` / `set_filter` return FALSE with
+    the image unchanged; a clip copy that cannot allocate leaves the region broken (old data
+    freed), except when only the temporary boxes of the 16-bit path could not be allocated -/
+def applyFail (h : Heap) (k : Nat) : Op → Heap × Res
+  | .createBits .. | .createSolid | .createGradient .. => (h, .null)
+  | .setClip32 i _ => (breakClip h i, .bool false)
+  | .setClip16 i (some n) => if 16 < n ∧ k = 1 then (h, .bool false) else (breakClip h i, .bool false)
+  | _ => (h, .bool false)
+
+def Call.op : Call → Op
+  | .plain op => op
+  | .failing _ op => op
+
+def applyCall (h : Heap) : Call → Heap × Res
+  | .plain op => apply h op
+  | .failing k op => if 1 ≤ k ∧ k ≤ allocsOf h op then applyFail h k op else apply h op
+
+/-- one step of a client that respects ownership: calls it may not make are not made -/
+def step (h : Heap) (c : Call) : Heap × Res :=
+  if c.op.ok h then applyCall h c else (h, .refused)
+
+def run (h : Heap) : List Call → Heap × List Res
   | [] => (h, [])
   | op :: ops =>
     let (h1, r) := step h op
